@@ -23,7 +23,7 @@ RULES = {
           "classes (old API: KeyboardInterrupt and Exception; new API: KeyboardInterrupt) and call the style's interrupted-draw hook on "
           "every path through the handler; the flush that delivers the write lies in the same protected try (keyword flush=True, or a later unconditional flush in the try body)",
     "R3": "every GraphicsImage subclass overrides _handle_interrupted_draw; the string it prints starts with ST (twice, for konsole), is "
-          "flushed, and - for the style whose transmissions are chunked - contains KITTY_END_CHUNKED",
+          "flushed, and - for the style whose transmissions are chunked - contains KITTY_END_CHUNKED; KITTY_END_CHUNKED is sent unconditionally (not multiplied by / selected on a flag)",
     "R4": "restores: _display_animated saves _seek_position before its try, every use of the frame generator is inside that try, and the "
           "finally closes the iterator, releases the image and stores the position back; _renderer restores a dynamic size in finally; "
           "Renderable.draw finalizes the render data in a finally; _animate_ closes its iterator in finally",
@@ -348,5 +348,6 @@ MUTANTS = [
     M("sgr-reset-on-tty-only", CM, "BaseImage.draw", "print(SGR_DEFAULT, SHOW_CURSOR * sys.stdout.isatty(), sep=\"\")", "print((SGR_DEFAULT + SHOW_CURSOR) * sys.stdout.isatty(), end=\"\")", {"R1"}),
     M("sgr-reset-under-test", CM, "BaseImage.draw", "                print(SGR_DEFAULT, SHOW_CURSOR * sys.stdout.isatty(), sep=\"\")", "                if animation:\n                    print(SGR_DEFAULT, SHOW_CURSOR * sys.stdout.isatty(), sep=\"\")", {"R1"}),
     M("frame-flush-outside-try", RN, "Renderable._animate_", '                    write(frame.render_output.replace("\\n", cursor_to_next_render_line))\n                    flush()\n', '                    write(frame.render_output.replace("\\n", cursor_to_next_render_line))\n', {"R2"}),
+    M("end-chunked-on-flag", KT, "KittyImage._handle_interrupted_draw", "ctlseqs.ST * 2 + ctlseqs.KITTY_END_CHUNKED", "ctlseqs.ST * 2 + ctlseqs.KITTY_END_CHUNKED * KittyImage._chunked", {"R3"}),
     M("twin-hook-order", KT, "KittyImage._handle_interrupted_draw", "ctlseqs.ST * 2 + ctlseqs.KITTY_END_CHUNKED", "2 * ctlseqs.ST + ctlseqs.KITTY_END_CHUNKED", twin=True),
 ]
